@@ -350,7 +350,7 @@ where
                 .p
                 .iter()
                 .zip(x.iter())
-                .map(|(pi, xi)| *xi as f64 * pi.ln())
+                .map(|(pi, xi)| if *xi == 0 { 0.0 } else { *xi as f64 * pi.ln() })
                 .fold(0.0, |acc, x| acc + x);
         val
     }
